@@ -64,6 +64,8 @@ MCNext ==
            \/ \E cs \in RowsOf(OpChoices) : WellFormedOps(cs) /\ Row(cs) /\ Feed([ev |-> "row", cells |-> cs])
            \* a line of ANY kind with one cell too many: data, local comment, barline, interpretation
            \/ ~Lean /\ \E c \in {NullC, FcomC, BarC, NulliC} : LET cs == [i \in 1..(N + 1) |-> c] IN Surplus(cs) /\ Feed([ev |-> "surplus", cells |-> cs])
+           \* ... or whose surplus cell is an exclusive interpretation (a spine cannot start out of nowhere)
+           \/ ~Lean /\ LET cs == [i \in 1..(N + 1) |-> IF i <= N THEN NulliC ELSE HdrC(HText)] IN Surplus(cs) /\ Feed([ev |-> "surplus", cells |-> cs])
 MCSpec == MCInit /\ [][MCNext]_mcVars
 
 (* ------------------------------ invariants ------------------------------ *)
